@@ -48,6 +48,11 @@ pub struct AllocCase {
     /// argv[0] is a different name of n bytes
     #[serde(default)]
     pub argv0_len: Option<u16>,
+    /// the parent's own descriptors in this mask (bit 0..2 = fd 0..2) are closed while
+    /// it spawns, so the child's pipe ends are allocated on the numbers they are then
+    /// to be installed on
+    #[serde(default)]
+    pub closed_std: u8,
 }
 
 pub fn check_case(ctx: &Ctx, case: &AllocCase, rep: &mut CaseReport) -> CaseResult {
@@ -171,6 +176,8 @@ pub fn check_case(ctx: &Ctx, case: &AllocCase, rep: &mut CaseReport) -> CaseResu
         let ord = if k == ip::K_EXEC { entries.iter().filter(|e| !e.is_empty()).count().max(1) as u32 } else { 1 };
         ip::fault_arm(k, ord, errno, true);
     }
+    // stays closed until the Popen's handles are gone (they may sit on these numbers)
+    let closed_guard = CloseGuard::new(case.closed_std & 7);
     ip::ARM_PROBE_ON_FORK.store(true, SeqCst);
     let res = Popen::create(&argv, cfg);
     ip::ARM_PROBE_ON_FORK.store(false, SeqCst);
@@ -193,6 +200,7 @@ pub fn check_case(ctx: &Ctx, case: &AllocCase, rep: &mut CaseReport) -> CaseResu
         drop(p.stderr.take());
         let _ = p.wait();
     }
+    drop(closed_guard);
     reap_all();
     rep.count("child_deallocs_observed", deallocs as u64);
     // classification
@@ -200,7 +208,7 @@ pub fn check_case(ctx: &Ctx, case: &AllocCase, rep: &mut CaseReport) -> CaseResu
     let big_len = matches!(case.outcome, Outcome::DirectLong(_)) || case.name_len >= 384 || case.cwd_len >= 384 || case.path_lens.iter().any(|l| *l >= 384) || case.arg_len >= 384;
     if big_path || !ok || big_len {
         let dim = if case.cwd_len >= 384 { "cwd" } else if case.path_lens.iter().any(|l| *l >= 384) { "path" } else if case.name_len >= 384 { "name" } else if case.nargs > 100 || case.nenv.unwrap_or(0) > 100 { "argv/env" } else { "none" };
-        rep.nontrivial(format!("large:{}|exe{}|cands{}|outcome:{}|ok{}|faulthit{}", dim, match case.argv0_len { None => "=argv0", Some(n) if n < case.name_len => ">argv0", Some(_) => "<=argv0" }, if big_path { ">=2" } else { "<2" }, match case.outcome { Outcome::SuccessAt(_) => "success", Outcome::FailEverywhere => "fail-all", Outcome::ChildFault(k, _) => ["f-chdir", "f-dup2", "f-setuid", "f-setgid", "f-setpgid", "f-exec"][k as usize % 6], Outcome::DirectSuccess => "direct-ok", Outcome::DirectFail => "direct-fail", Outcome::DirectLong(l) => if l >= 4096 { "direct-long>=PATH_MAX" } else { "direct-long" }, Outcome::TextFile(true) => "text-file-on-path", Outcome::TextFile(false) => "text-file-direct" }, ok as u8, fault_hit as u8));
+        rep.nontrivial(format!("large:{}|closed{}|exe{}|cands{}|outcome:{}|ok{}|faulthit{}", dim, (case.closed_std & 7 != 0) as u8, match case.argv0_len { None => "=argv0", Some(n) if n < case.name_len => ">argv0", Some(_) => "<=argv0" }, if big_path { ">=2" } else { "<2" }, match case.outcome { Outcome::SuccessAt(_) => "success", Outcome::FailEverywhere => "fail-all", Outcome::ChildFault(k, _) => ["f-chdir", "f-dup2", "f-setuid", "f-setgid", "f-setpgid", "f-exec"][k as usize % 6], Outcome::DirectSuccess => "direct-ok", Outcome::DirectFail => "direct-fail", Outcome::DirectLong(l) => if l >= 4096 { "direct-long>=PATH_MAX" } else { "direct-long" }, Outcome::TextFile(true) => "text-file-on-path", Outcome::TextFile(false) => "text-file-direct" }, ok as u8, fault_hit as u8));
     }
     let _ = (exec_failed, will_succeed);
     if allocs > 0 {
@@ -233,9 +241,9 @@ pub fn case_strategy() -> impl Strategy<Value = AllocCase> {
         outcome,
         any::<bool>(),
         any::<bool>(),
-        prop_oneof![3 => Just(None), 1 => prop_oneof![Just(1u16), 1u16..40, 40u16..300].prop_map(Some)],
+        (prop_oneof![3 => Just(None), 1 => prop_oneof![Just(1u16), 1u16..40, 40u16..300].prop_map(Some)], prop_oneof![3 => Just(0u8), 1 => 1u8..8]),
     )
-        .prop_map(|(name_len, mut path_lens, nargs, arg_len, nenv, cwd_len, streams, outcome, ids, setpgid, argv0_len)| {
+        .prop_map(|(name_len, mut path_lens, nargs, arg_len, nenv, cwd_len, streams, outcome, ids, setpgid, (argv0_len, closed_std))| {
             // rotate so that the longest entry is first / last / in the middle
             if !path_lens.is_empty() {
                 let r = (name_len as usize) % path_lens.len();
@@ -243,7 +251,7 @@ pub fn case_strategy() -> impl Strategy<Value = AllocCase> {
             }
             // keep argv below ARG_MAX
             let nargs = if (nargs as usize) * (arg_len as usize + 8) > 600_000 { 100 } else { nargs };
-            AllocCase { name_len, path_lens, nargs, arg_len, nenv, cwd_len, streams, outcome, ids, setpgid, argv0_len }
+            AllocCase { name_len, path_lens, nargs, arg_len, nenv, cwd_len, streams, outcome, ids, setpgid, argv0_len, closed_std }
         })
 }
 
